@@ -89,6 +89,7 @@ func C07(c *sim.Ctx) {
 	p := newPair(c, false)
 	defer p.close()
 	t := c.T
+	p.sequencer = t.Draw("sequencer", 3) == 2
 	if st := p.nodes[0].St; st.Pebble && t.Draw("pebble.tinycache", 2) == 1 {
 		// reopen the (still empty) store without a block cache
 		st.TinyCache = true
